@@ -79,6 +79,18 @@ static void prop_c04(Tape &t, Result &r) {
   if (mode == 1) {
     std::vector<std::string> toks = gm::texts_of(files[L.main]);
     for (int i = 0; i < nedits; i++) gm::apply_edit(toks, gm::random_edit(et, toks, false));
+    if (et.chance(1, 8)) {
+      // one more statement: a call of a program that is defined nowhere, under a name that looks reserved, with the
+      // argument shapes of the built-in sugar (identifier, literal) and others
+      static const char *UNDEF[] = {"__nope", "__f2", "__INC", "_x"};
+      static const char *ARGS[] = {"x1 , 1", "x1 , 1", "x1", "", "1 , x1", "x1 , 1 , 2"};
+      for (const char *k : {";", "x0", ":=", "RUN"}) toks.push_back(k);
+      toks.push_back(UNDEF[et.pick(4)]);
+      toks.push_back("WITH");
+      for (auto &a : gm::texts_of(ARGS[et.pick(6)])) toks.push_back(a);
+      toks.push_back("END");
+      r.cls("gen:call-of-undefined-__name");
+    }
     files[L.main] = gm::join(toks, 1 + et.pick(9));
     mutated = true;
     r.cls("gen:" + std::to_string(nedits) + "-edits");
